@@ -37,7 +37,12 @@ func TestCheck(t *testing.T) {
 		r := vh.NewRand(env.Seed)
 		n := env.N(250, 8)
 		for i := 0; i < n; i++ {
-			scs = append(scs, sysrun.Gen(r.Fork(), sysrun.GenOpts{MaxOps: 10, Faults: i%3 == 0, Silences: i%5 == 1, MultiInt: i%2 == 0, Flap: i%2 == 1, RouteLbl: i%3 != 2}))
+			scs = append(scs, sysrun.Gen(r.Fork(), sysrun.GenOpts{MaxOps: 10, Faults: i%3 == 0, Silences: i%5 == 1, MultiInt: i%2 == 0, Flap: i%2 == 1, RouteLbl: i%3 != 2, NflogGC: i%4 == 2}))
+		}
+		// a deployment whose local time zone is not UTC: intervals without a location are UTC intervals
+		rz := vh.NewRand(env.Seed + 77051)
+		for i := 0; i < env.N(16, 4); i++ {
+			scs = append(scs, sysrun.Gen(rz.Fork(), sysrun.GenOpts{MaxOps: 8, MultiInt: i%2 == 0, Flap: i%2 == 1, TZ: true}))
 		}
 	}
 	for i := range scs {
